@@ -117,6 +117,11 @@ def profiles_for(pid, tier):
                 ("lookalike", dict(look, w_claim=16, w_release=8, w_close=6, w_restart=2), N(80, 600)),
                 ("general", dict(three, w_claim=16, w_release=8, w_close=8, w_restart=2, w_sweep=3, names=["1", "2", "7"]), N(200, 2000)),
                 ("late-claim", dict(_special="late-claim"), N(30, 200)),
+                # one name, three sides, the nameplate's own mailbox in use (both holders open it and add) when a third
+                # side's claim arrives: a claim must never retire / re-point a nameplate that is held
+                ("third-after-traffic", dict(base, n_ops=40, apps=["a"], sides=["s1", "s2", "s3"], names=["1"], client_mailboxes=["m1"],
+                                             w_claim=12, w_open=12, w_add=16, w_release=1, w_close=1, w_reconnect=6, w_connect=8,
+                                             w_allocate=0, w_sweep=0, w_restart=1, w_malformed=0, w_bigjump=0, w_drop=1), N(160, 1500)),
                 # one name, two or three sides, frequent restarts: whatever a command left uncommitted is lost at the
                 # restart, and the claims that follow must still agree with the history
                 ("small-restart", dict(base, n_ops=26, apps=["a"], sides=["s1", "s2", "s3"], names=["1"], client_mailboxes=["m1"],
